@@ -15,6 +15,7 @@ From Sylt Require Import Syntax.Resolved.
 From Sylt Require Sem.Values Sem.Runtime Sem.SyltSem.
 From Sylt Require Import Back.IR Back.Emit.
 From Sylt Require Import Pres.EmitAst Pres.EmitRel Pres.Names Pres.LuaFuel Pres.LuaEv Pres.Preamble.
+From Sylt Require Import Pres.Frag.
 From Sylt Require Import Lua.LuaAst Lua.LuaMap Lua.LuaNum Lua.LuaProofs Lua.LuaCore.
 Import ListNotations.
 Local Open Scope N_scope.
@@ -218,9 +219,106 @@ Qed.
 
 (* ------------------------------------------------------------------ the main relation *)
 
+(* ---- top-level functions (stage 3b).  A function is described by a record with the static facts about
+   its code and the dynamic ones (which cells, which closures); a `world` fixes, for the run of one function
+   body, the functions that exist and the cells whose content cannot change during that run: the cells of
+   the function names and, inside a call, the cells of the caller that the callee cannot reach. ---- *)
+Record fdyn := mkFdyn {
+  fd_var : N; fd_params : list N; fd_body : list Resolved.stmt;
+  fd_sc : list N;                 (* the global values its body sees *)
+  fd_fl : list (N * nat);         (* the functions its body can call: the earlier ones and itself *)
+  fd_g : nat; fd_k : nat; fd_scout : list N;
+  fd_code : list ir; fd_c : N; fd_c' : N; fd_lut : alut;
+  fd_cf : nat; fd_ci : nat; fd_ef : senv;            (* Sylt: cell of the name, closure index, closure environment *)
+  fd_pf : positive; fd_fid : positive; fd_Ef : env   (* Lua: cell of the name, closure id, closure environment *)
+}.
+
+Record world := mkWorld {
+  w_IS : nat -> sval -> Prop;          (* Sylt cells with a fixed content *)
+  w_IL : positive -> value -> Prop;    (* Lua cells with a fixed content *)
+  w_funs : list fdyn
+}.
+
+Definition fnames (fl : list (N * nat)) : list N := map fst fl.
+
 Section Rel.
 Variable pv : N.       (* the id of the external print *)
+Variable sv : N.       (* the id of start *)
 Variable bound : N.    (* |r_vars| + 1: where the temporaries start *)
+Variable u : counts.   (* the usage counts of the whole program *)
+
+(* what a function's body can name besides its parameters and locals *)
+Definition fvis (d : fdyn) (g : N) : Prop := In g (fd_sc d) \/ In g (fnames (fd_fl d)).
+
+(* the facts about a function that never change *)
+Record fstatic (d : fdyn) : Prop := mkFstatic {
+  fs_lower : lower_fbody (statement (fd_g d)) (expression (fd_g d)) (fd_body d) 0 (fd_c d) = Ok (fd_code d, fd_c' d);
+  fs_frag : frag_stmts pv sv bound (fd_fl d) (fd_k d) (rev (fd_params d) ++ fd_sc d) (fd_body d) = Some (fd_scout d);
+  fs_params : params_ok pv sv bound (fd_fl d) (fd_sc d) (fd_params d) = true;
+  fs_self : In (fd_var d, length (fd_params d)) (fd_fl d);
+  fs_var : fd_var d < bound /\ fd_var d <> pv /\ fd_var d <> sv;
+  fs_scb : forall g, In g (fd_sc d) -> g < bound /\ g <> pv;
+  fs_flb : forall g, In g (fnames (fd_fl d)) -> g < bound /\ g <> pv;
+  fs_ucov : ucovers u (fd_code d);
+  fs_bound : bound <= fd_c d;
+  fs_lut : forall t, (fd_c d <= t < fd_c' d \/ t < bound) -> alut_get (fd_lut d) t = None;
+  fs_Efree : forall t, fd_c d <= t < fd_c' d -> sget (fmt_var t) (fd_Ef d) = None;
+  fs_EpvE : sget (fmt_var pv) (fd_Ef d) = None;
+  fs_EV : forall x p, sget x (fd_Ef d) = Some p -> exists v, x = fmt_var v;
+  fs_Einj : forall x y p, sget x (fd_Ef d) = Some p -> sget y (fd_Ef d) = Some p -> x = y;
+  fs_print : exists cp, SyltSem.lookup (fd_ef d) pv = Some cp
+}.
+
+(* the body of the Lua closure of a function *)
+Definition fbody (d : fdyn) : block := estack u (fd_lut d) [] [] (fd_code d).
+
+(* a function as seen from an environment in which it can be called: the name is bound to its cells, and the
+   closure environments agree with this one on everything the body of the function can name *)
+Record fvisS (e : senv) (d : fdyn) : Prop := mkFvisS {
+  vs_name : SyltSem.lookup e (fd_var d) = Some (fd_cf d);
+  vs_agree : forall g, fvis d g \/ g = pv -> SyltSem.lookup (fd_ef d) g = SyltSem.lookup e g
+}.
+Record fvisL (E : env) (d : fdyn) : Prop := mkFvisL {
+  vl_name : sget (fmt_var (fd_var d)) E = Some (fd_pf d);
+  vl_agree : forall g, fvis d g -> sget (fmt_var g) (fd_Ef d) = sget (fmt_var g) E
+}.
+
+Section World.
+Variable fl : list (N * nat).   (* the functions that can be called from the code being run *)
+Variable W : world.
+
+(* the Lua cells of the variables in scope can be written: their content is not fixed *)
+Definition lprot_ok (sc : list N) (E : env) : Prop :=
+  forall v p lv, In v sc -> sget (fmt_var v) E = Some p -> ~ w_IL W p lv.
+
+Record winv (sc : list N) (e : senv) (st : sstate) (E : env) (stL : state) : Prop := mkWinv {
+  (* state *)
+  wi_IS : forall c x, w_IS W c x -> nth_error (SyltSem.cells st) c = Some x;
+  wi_IL : forall p lv, w_IL W p lv -> get_cell stL p = lv /\ (p < s_ncell stL)%positive;
+  wi_clos : forall d, In d (w_funs W) ->
+            nth_error (SyltSem.clos st) (fd_ci d) = Some (SyltSem.mkClos (fd_params d) (fd_body d) (fd_ef d)) /\
+            pget (fd_fid d) (s_clos stL) = Some (mkClosure (fd_Ef d) (map fmt_var (fd_params d)) (fbody d)) /\
+            (forall x p, sget x (fd_Ef d) = Some p -> (p < s_ncell stL)%positive) /\
+            (fd_fid d < s_nclo stL)%positive /\ (fd_ci d < length (SyltSem.clos st))%nat;
+  (* the functions *)
+  wi_fun : forall d, In d (w_funs W) ->
+           fstatic d /\ w_IS W (fd_cf d) (SyltSem.SClos (fd_ci d)) /\ w_IL W (fd_pf d) (VFun (fd_fid d));
+  wi_inter : forall d d', In d (w_funs W) -> In d' (w_funs W) -> In (fd_var d') (fnames (fd_fl d)) ->
+             fvisS (fd_ef d) d' /\ fvisL (fd_Ef d) d' /\ incl (fd_sc d') (fd_sc d) /\ incl (fd_fl d') (fd_fl d);
+  wi_cover : forall f ar, In (f, ar) fl -> exists d, In d (w_funs W) /\ fd_var d = f /\ length (fd_params d) = ar;
+  wi_uniq : forall d d', In d (w_funs W) -> In d' (w_funs W) -> fd_var d = fd_var d' -> d = d';
+  (* the current scope *)
+  wi_scS : forall v c x, In v sc -> SyltSem.lookup e v = Some c -> ~ w_IS W c x;
+  wi_scfl : forall v, In v sc -> ~ In v (fnames fl);
+  wi_lprot : lprot_ok sc E;
+  wi_visS : forall d, In d (w_funs W) -> In (fd_var d) (fnames fl) -> fvisS e d;
+  wi_visL : forall d, In d (w_funs W) -> In (fd_var d) (fnames fl) -> fvisL E d;
+  wi_vsc : forall d, In d (w_funs W) -> In (fd_var d) (fnames fl) -> incl (fd_sc d) sc /\ incl (fd_fl d) fl
+}.
+End World.
+
+Variable fl : list (N * nat).
+Variable W : world.
 
 Record rel (sc : list N) (e : senv) (st : sstate) (E : env) (stL : state) : Prop := mkRel {
   r_vars : forall v, In v sc ->
@@ -236,13 +334,108 @@ Record rel (sc : list N) (e : senv) (st : sstate) (E : env) (stL : state) : Prop
   r_pvG : glob stL (fmt_var pv) (VBuiltin BPrint);
   r_wf : wfenv E stL;
   r_trace : SyltSem.trace st = s_out stL;
-  r_linv : linv stL
+  r_linv : linv stL;
+  r_world : winv fl W sc e st E stL
 }.
+
+(* ---- the world invariant under the changes of state and environment the simulation makes ---- *)
+
+Lemma winv_states_gen sc e st E stL st' stL' :
+  winv fl W sc e st E stL ->
+  (forall c x, w_IS W c x -> nth_error (SyltSem.cells st') c = nth_error (SyltSem.cells st) c) ->
+  (forall ci, (ci < length (SyltSem.clos st))%nat -> nth_error (SyltSem.clos st') ci = nth_error (SyltSem.clos st) ci) ->
+  (length (SyltSem.clos st) <= length (SyltSem.clos st'))%nat ->
+  (forall p lv, w_IL W p lv -> get_cell stL' p = get_cell stL p) ->
+  (s_ncell stL <= s_ncell stL')%positive ->
+  (forall fid, (fid < s_nclo stL)%positive -> pget fid (s_clos stL') = pget fid (s_clos stL)) ->
+  (s_nclo stL <= s_nclo stL')%positive ->
+  winv fl W sc e st' E stL'.
+Proof.
+  intros [H1 H2 H3 H4 H5 H6 H7 H8 H9 H10 H11 H12 H13] Hs Hc Hcl Hl Hn Hlc Hnc.
+  constructor; auto.
+  - intros c x Hx. rewrite (Hs c x Hx). apply H1. exact Hx.
+  - intros p lv Hp. destruct (H2 p lv Hp) as [Ha Hb]. split; [rewrite (Hl p lv Hp); exact Ha | lia].
+  - intros d Hd. destruct (H3 d Hd) as (Ha & Hb & Hcc & Hf & Hci).
+    split; [rewrite (Hc _ Hci); exact Ha|]. split; [rewrite (Hlc _ Hf); exact Hb|].
+    split; [intros x p Hx; specialize (Hcc x p Hx); lia|]. split; lia.
+Qed.
+
+Lemma winv_states sc e st E stL st' stL' :
+  winv fl W sc e st E stL ->
+  (forall c x, w_IS W c x -> nth_error (SyltSem.cells st') c = nth_error (SyltSem.cells st) c) ->
+  SyltSem.clos st' = SyltSem.clos st ->
+  (forall p lv, w_IL W p lv -> get_cell stL' p = get_cell stL p) ->
+  (s_ncell stL <= s_ncell stL')%positive -> s_clos stL' = s_clos stL -> s_nclo stL' = s_nclo stL ->
+  winv fl W sc e st' E stL'.
+Proof.
+  intros Hw Hs Hc Hl Hn Hlc Hnc. apply (winv_states_gen sc e st E stL st' stL' Hw Hs); auto.
+  - intros ci _. rewrite Hc. reflexivity.
+  - rewrite Hc. lia.
+  - intros fid _. rewrite Hlc. reflexivity.
+  - rewrite Hnc. lia.
+Qed.
+
+(* the same states, another scope and environments *)
+Lemma winv_env sc e st E stL sc' e' E' :
+  winv fl W sc e st E stL ->
+  (forall v c x, In v sc' -> SyltSem.lookup e' v = Some c -> ~ w_IS W c x) ->
+  (forall v, In v sc' -> ~ In v (fnames fl)) ->
+  lprot_ok W sc' E' ->
+  (forall d, In d (w_funs W) -> In (fd_var d) (fnames fl) -> fvisS e' d) ->
+  (forall d, In d (w_funs W) -> In (fd_var d) (fnames fl) -> fvisL E' d) ->
+  (forall d, In d (w_funs W) -> In (fd_var d) (fnames fl) -> incl (fd_sc d) sc' /\ incl (fd_fl d) fl) ->
+  winv fl W sc' e' st E' stL.
+Proof. intros [H1 H2 H3 H4 H5 H6 H7 H8 H9 H10 H11 H12 H13] A B C D F G. constructor; auto. Qed.
+
+(* every name a callable function's body can see, and the function names, are user variables *)
+Lemma winv_fvis_bound sc e st E stL d g :
+  winv fl W sc e st E stL -> In d (w_funs W) -> fvis d g \/ g = fd_var d -> g < bound /\ g <> pv.
+Proof.
+  intros Hw Hd Hg. destruct (wi_fun _ _ _ _ _ _ _ Hw d Hd) as (Hs & _ & _).
+  destruct Hg as [[Hg|Hg]|Hg]; [apply (fs_scb _ Hs); exact Hg | apply (fs_flb _ Hs); exact Hg | subst g; destruct (fs_var _ Hs) as (A & B & _); split; assumption].
+Qed.
+
+(* a Lua environment that differs from E only on temporaries and on one new user variable that no function sees *)
+Lemma fvisL_same E E' d :
+  fvisL E d -> sget (fmt_var (fd_var d)) E' = sget (fmt_var (fd_var d)) E ->
+  (forall g, fvis d g -> sget (fmt_var g) E' = sget (fmt_var g) E) -> fvisL E' d.
+Proof.
+  intros [Ha Hb] H1 H2. constructor; [rewrite H1; exact Ha|]. intros g Hg. rewrite (H2 g Hg). apply Hb. exact Hg.
+Qed.
+
+Lemma fvisS_same e e' d :
+  fvisS e d -> SyltSem.lookup e' (fd_var d) = SyltSem.lookup e (fd_var d) ->
+  (forall g, fvis d g \/ g = pv -> SyltSem.lookup e' g = SyltSem.lookup e g) -> fvisS e' d.
+Proof.
+  intros [Ha Hb] H1 H2. constructor; [rewrite H1; exact Ha|]. intros g Hg. rewrite (H2 g Hg). apply Hb. exact Hg.
+Qed.
+
+(* a new temporary local on the Lua side *)
+Lemma winv_local_temp sc e st E stL t v :
+  winv fl W sc e st E stL -> (forall w, In w sc -> w < bound /\ w <> pv) -> bound <= t ->
+  winv fl W sc e st (sset (fmt_var t) (s_ncell stL) E) (snd (alloc_cell stL v)).
+Proof.
+  intros Hw Hb Hbt.
+  assert (Hw1 : winv fl W sc e st E (snd (alloc_cell stL v))).
+  { apply (winv_states sc e st E stL st (snd (alloc_cell stL v)) Hw); auto.
+    - intros p lv Hp. apply get_cell_alloc_old. apply (wi_IL _ _ _ _ _ _ _ Hw p lv Hp).
+    - cbn; lia. }
+  apply (winv_env sc e st E (snd (alloc_cell stL v)) sc e _ Hw1).
+  - apply (wi_scS _ _ _ _ _ _ _ Hw).
+  - apply (wi_scfl _ _ _ _ _ _ _ Hw).
+  - intros w p lv Hin Hx. rewrite sget_sset_var in Hx by (destruct (Hb w Hin); lia).
+    eapply (wi_lprot _ _ _ _ _ _ _ Hw); eassumption.
+  - apply (wi_visS _ _ _ _ _ _ _ Hw).
+  - intros d Hd Hv. apply (fvisL_same E); [apply (wi_visL _ _ _ _ _ _ _ Hw d Hd Hv) | |].
+    + apply sget_sset_var. destruct (winv_fvis_bound _ _ _ _ _ d (fd_var d) Hw Hd (or_intror eq_refl)). lia.
+    + intros g Hg. apply sget_sset_var. destruct (winv_fvis_bound _ _ _ _ _ d g Hw Hd (or_introl Hg)). lia.
+  - apply (wi_vsc _ _ _ _ _ _ _ Hw).
+Qed.
 
 (* garbage cells on the Lua side *)
 Lemma rel_cells_ext sc e st E stL stL' : rel sc e st E stL -> cells_ext stL stL' -> rel sc e st E stL'.
 Proof.
-  intros [Hv Hb Hi Hp Hpb HpE HpG Hwf Ht Hl] Hx. constructor.
+  intros [Hv Hb Hi Hp Hpb HpE HpG Hwf Ht Hl HW] Hx. constructor.
   - intros v Hin. destruct (Hv v Hin) as (c & x & p & H1 & H2 & H3 & H4).
     exists c, x, p. repeat split; auto. destruct Hx as (_ & _ & _ & _ & _ & _ & _ & Hg).
     rewrite Hg; [exact H4 | eapply wf_alloc; eassumption].
@@ -255,6 +448,9 @@ Proof.
   - eapply wfenv_ext; [exact Hwf | apply Hx].
   - destruct Hx as (_ & _ & _ & _ & Ho & _). congruence.
   - eapply cells_ext_linv; eassumption.
+  - destruct Hx as (_ & _ & Hc & Hnc & _ & _ & Hn & Hg).
+    apply (winv_states sc e st E stL st stL' HW); auto.
+    intros p lv Hp'. apply Hg. apply (wi_IL _ _ _ _ _ _ _ HW p lv Hp').
 Qed.
 
 (* a new temporary local *)
@@ -262,7 +458,7 @@ Lemma rel_local_temp sc e st E stL t v :
   rel sc e st E stL -> bound <= t ->
   rel sc e st (sset (fmt_var t) (s_ncell stL) E) (snd (alloc_cell stL v)).
 Proof.
-  intros [Hv Hb Hi Hp Hpb HpE HpG Hwf Ht Hl] Hbt. constructor.
+  intros [Hv Hb Hi Hp Hpb HpE HpG Hwf Ht Hl HW] Hbt. constructor.
   - intros w Hin. destruct (Hv w Hin) as (c & x & p & H1 & H2 & H3 & H4).
     exists c, x, p. repeat split; auto.
     + rewrite sget_sset_var; [exact H3 | destruct (Hb w Hin); lia].
@@ -276,13 +472,15 @@ Proof.
   - apply wfenv_local. exact Hwf.
   - exact Ht.
   - apply linv_alloc_cell. exact Hl.
+  - apply winv_local_temp; assumption.
 Qed.
 
 (* writing the cell of a temporary *)
 Lemma rel_set_temp sc e st E stL t p v :
-  rel sc e st E stL -> bound <= t -> sget (fmt_var t) E = Some p -> rel sc e st E (set_cell stL p v).
+  rel sc e st E stL -> bound <= t -> sget (fmt_var t) E = Some p -> (forall lv, ~ w_IL W p lv) ->
+  rel sc e st E (set_cell stL p v).
 Proof.
-  intros [Hv Hb Hi Hp Hpb HpE HpG Hwf Ht Hl] Hbt Htp. constructor.
+  intros [Hv Hb Hi Hp Hpb HpE HpG Hwf Ht Hl HW] Hbt Htp Hnp. constructor.
   - intros w Hin. destruct (Hv w Hin) as (c & x & q & H1 & H2 & H3 & H4).
     exists c, x, q. repeat split; auto.
     rewrite get_cell_set_other; [exact H4|].
@@ -297,6 +495,8 @@ Proof.
   - eapply wfenv_ext; [exact Hwf | cbn; lia].
   - exact Ht.
   - apply linv_set_cell. exact Hl.
+  - apply (winv_states sc e st E stL st (set_cell stL p v) HW); auto; [|cbn; lia].
+    intros q lv Hq. apply get_cell_set_other. intros ->. exact (Hnp lv Hq).
 Qed.
 
 End Rel.
